@@ -317,6 +317,8 @@ class Executor:
         for lm in (c.lemmas(self.ctx) if hasattr(c, "lemmas") else []):
             st.assume(lm)
         self.entry_pc = list(st.pc)
+        # vacuity guard: `False` under the preconditions, lemmas and axioms must NOT be provable
+        self.obligations.append(Obligation("vacuity guard: preconditions, lemmas and axioms are not contradictory", list(st.pc), z3.BoolVal(False), self.where(fn), "vacuity"))
         outs = self.exec_block(fn.body, st)
         for o in outs:
             self.finish(o, fn)
